@@ -9,7 +9,7 @@
    Codec law used:  an output-less decompress_sync call leaves data_available false
        hstep h x m = Some (Some (h', [])) -> havail h' = false
    (ZLibDecompressor: `_last_empty`; validated by sampling on the real codecs in harness/c09.py). *)
-From AV Require Import Lib.Base Generated.DecodeGen Model.Decode Proofs.DecodeBound.
+From AV Require Import Lib.Base Generated.DecodeGen Model.Decode Proofs.DecodeCommon.
 From Coq Require Import ZifyBool ZifyN.
 Ltac Zify.zify_post_hook ::= Z.to_euclidean_division_equations.
 Open Scope N_scope.
@@ -225,7 +225,7 @@ Section Progress.
           split; [intros _; rewrite P1; destruct (pa s); cbn in *; auto|]. split; [intro X; discriminate X|intros e X; discriminate X].
         * destruct (db_feed H hnew hstep havail s []) as [s1 [e|m]] eqn:Ed; destruct (db_feed_Q _ _ _ _ Ed) as (Q1 & N1).
           -- intros [= <- <-]. split; [exact Q1|]. split; [intros _ X; discriminate X|]. split; [intro X; discriminate X|].
-             split; [intro X; discriminate X|]. intros e' [= <-]. eapply db_feed_err; eauto.
+             split; [intro X; discriminate X|]. intros e' [= <-]. eapply (db_feed_err H hnew hstep havail); eauto.
           -- destruct (upd_Q s1 (fun q => pa_more q m)) as (Q2 & R2 & P2 & _); [kt|].
              intros Hd. apply IH in Hd. destruct Hd as (Q3 & N3 & D3 & O3 & E3).
              split; [eapply Q_trans; [exact Q1|eapply Q_trans; [exact Q2|exact Q3]]|]. split; [|auto].
@@ -263,7 +263,7 @@ Section Progress.
     assert (L0 : req = 0 -> plength (pa s0) = 0) by (intro Hz; pafield P0 s; unfold dg_remaining; subst req; cbn in Hz; rewrite Hz; lia).
     destruct (db_feed H hnew hstep havail s0 (take req chunk)) as [s1 [e|m]] eqn:Ed; destruct (db_feed_Q _ _ _ _ Ed) as ((Q1 & L1 & E1 & Dn1) & N1).
     - intros [= <- <-]. split; [qt|]. split; [congruence|]. split; [intro X; discriminate X|]. split; [intro X; discriminate X|].
-      split; [intros x X; discriminate X|]. split; [intros e' [= <-]; eapply db_feed_err; eauto|]. intros Hz. split; [discriminate|]. rewrite L1. auto.
+      split; [intros x X; discriminate X|]. split; [intros e' [= <-]; eapply (db_feed_err H hnew hstep havail); eauto|]. intros Hz. split; [discriminate|]. rewrite L1. auto.
     - destruct (upd_Q s1 (fun q => pa_more q m)) as ((Q2 & L2 & E2 & Dn2) & R2 & P2 & _); [kt|].
       set (s2 := upd_pa H s1 _) in *. clearbody s2.
       assert (Hm : more (pa s2) = true -> nonempty s2).
@@ -300,7 +300,7 @@ Section Progress.
     unfold eof_feed.
     destruct (db_feed H hnew hstep havail s c) as [s1 [e|m]] eqn:Ed; destruct (db_feed_Q _ _ _ _ Ed) as ((Q1 & L1 & E1 & Dn1) & N1).
     - intros [= <- <-]. split; [qt|]. split; [intro X; discriminate X|]. split; [intro X; discriminate X|].
-      split; [intros x X; discriminate X|]. split; [intros e' [= <-]; eapply db_feed_err; eauto|]. intros _; discriminate.
+      split; [intros x X; discriminate X|]. split; [intros e' [= <-]; eapply (db_feed_err H hnew hstep havail); eauto|]. intros _; discriminate.
     - destruct (upd_Q s1 (fun q => pa_more q m)) as ((Q2 & L2 & E2 & Dn2) & R2 & P2 & _); [kt|].
       set (s2 := upd_pa H s1 _) in *. clearbody s2.
       assert (Hm : more (pa s2) = true -> nonempty s2).
@@ -622,7 +622,7 @@ Section Progress.
         intro Hsh. destruct (N3 Hsh) as (N4 & _). apply N4; reflexivity. }
       unfold Fb, Ph, Pg, Pt, nonempty, shape in *. rewrite ?U1, ?U2, ?U3. cbn. rewrite ?T7, ?T8, ?T9, ?T10, ?T12.
       destruct Hf as (F1 & F2 & F3 & F4 & F5 & F6 & F7). destruct (F3 Ea Ep) as (F31 & F32).
-      clear F3 Ef Q1 T1 T2 T4 T6 T13 T14 U4 Hw Hw1 En. rewrite Ea, Ep in *. prep s; fin2.
+      clear F3 Ef Q1 T1 T4 T6 T13 T14 U4 Hw1 En. specialize (T2 Hw). clear Hw. rewrite Ea, Ep in *. prep s; fin2.
     - (* HAS_PENDING_INPUT *)
       match goal with |- context [pr_set H s1 ?g] => destruct (pr_set_proj s1 g) as (U1 & U2 & U3 & U4); set (s' := pr_set H s1 g) in * end. clearbody s'.
       split; [unfold W in *; rewrite U3; exact Hw1|]. split; [|split; [rewrite U3, T13; auto|rewrite U1; cbn; exact T8]].
@@ -633,7 +633,7 @@ Section Progress.
       { intro Ht. destruct (payload_feed_nc _ _ _ _ _ Ht Ef) as (N1 & N2 & N3). split; [apply N2; intros x Y; discriminate Y|].
         intro Hsh. destruct (N3 Hsh) as (_ & N5). apply N5; reflexivity. }
       unfold Fb, Ph, Pg, Pt, nonempty, shape in *. rewrite ?U1, ?U2, ?U3. cbn. rewrite ?T7, ?T8, ?T9, ?T10, ?T12.
-      clear F3 Ef Q1 T1 T2 T4 T6 T13 T14 U4 Hw Hw1 En RP RP1 Hq. rewrite Ea, Ep in *. prep s; fin2.
+      clear F3 Ef Q1 T1 T4 T6 T13 T14 U4 Hw1 En RP RP1 Hq. specialize (T2 Hw). clear Hw. rewrite Ea, Ep in *. prep s; fin2.
     - (* COMPLETE *)
       match goal with |- context [pr_set H s1 ?g] => destruct (pr_set_proj s1 g) as (U1 & U2 & U3 & U4); set (s' := pr_set H s1 g) in * end. clearbody s'.
       split; [unfold W in *; rewrite U3; exact Hw1|]. split; [|split; [rewrite U3, T13; auto|rewrite U1; cbn; exact T8]].
